@@ -59,6 +59,14 @@ def cases(tier):
         for seeded in (False, True):
             out.append({'cfg': {'scenario': 'odd_statement', 'n': 4, 'x': 1, 'cap': 4, 'commitments': nc, 'promises': np_, 'seeded': seeded, 'actions': ACTIONS}, 'kind': 'odd',
                         'name': 'statement with %d commitments and %d promises%s' % (nc, np_, ' and a seed' if seeded else '')})
+    # statements built through the constructors from Pedersen generators whose vector length disagrees with their degree tag
+    for x in (1, 2, 6):
+        for ts in ({'op': 'g_append'}, {'op': 'g_drop_last'}, {'op': 'degree_tag', 'x': x + 1 if x < 6 else 5}, {'op': 'degree_tag', 'x': x - 1 if x > 1 else 2}):
+            if ts['op'] == 'g_drop_last' and x == 1:
+                continue
+            for members in ([{'m': 1, 'cap': 1, 'tamper_statement': ts}], [{'m': 1, 'cap': 2}, {'m': 2, 'cap': 2, 'tamper_statement': ts}], [{'m': 2, 'cap': 2, 'tamper_statement': ts}, {'m': 1, 'cap': 2}]):
+                out.append({'cfg': {'scenario': 'batch', 'n': 4, 'x': x, 'members': members, 'actions': ACTIONS}, 'kind': 'gens-shape',
+                            'name': 'generator vector / degree tag mismatch: %s x%d batch of %d' % (ts, x, len(members))})
     return out
 
 
@@ -73,6 +81,10 @@ def analyse(ctx, case, run, S):
         ctx.expect(o.get('params') != 'panic' and o.get('statement') != 'panic', 'C16:constructor-panic', '%s: constructor PANICKED' % case['name'], cfg, 'any_panic')
         for v in o.get('verify') or []:
             ctx.expect(v['result'] != 'panic', 'C16:verify-panic:odd-statement', '%s: verification PANICKED in %s' % (case['name'], v['action']), cfg, 'any_panic')
+        return
+    if case['kind'] == 'gens-shape':
+        for v in o.get('verify') or []:
+            ctx.expect(v['result'] != 'panic', 'C16:verify-panic:generator-shape', '%s: verification PANICKED in %s' % (case['name'], v['action']), cfg, 'any_panic')
         return
     if 'error' in o:
         raise Inconclusive('scenario error: %s' % o['error'])
